@@ -602,6 +602,8 @@ class Sym:
     def __floordiv__(s, o):
         if s.isint and (isinstance(o, int) or _is_np_int(o) or (isinstance(o, Sym) and o.isint)):
             return mk(_ifloordiv(toz(s), toz(o)))
+        if isinstance(o, _np.ndarray):
+            return NotImplemented          # numpy broadcasts through __rfloordiv__ of the elements
         a = toz(s, True); b = toz(o, True)
         return _np.float64(ENGINE.concretize(z3.simplify(z3.ToInt(a / b))))
 
@@ -609,12 +611,14 @@ class Sym:
         if s.isint and (isinstance(o, int) or _is_np_int(o)):
             return mk(_ifloordiv(toz(o), toz(s)))
         a = toz(o, True); b = toz(s, True)
-        return mk(z3.ToReal(z3.ToInt(a / b)))
+        return _np.float64(ENGINE.concretize(z3.simplify(z3.ToInt(a / b))))
 
     def __mod__(s, o):
         if s.isint and (isinstance(o, int) or _is_np_int(o) or (isinstance(o, Sym) and o.isint)):
             a = toz(s); b = toz(o)
             return mk(a - b * _ifloordiv(a, b))
+        if isinstance(o, _np.ndarray):
+            return NotImplemented
         a = toz(s, True); b = toz(o, True)
         # real modulo (periodic wrap): case split on the integer quotient, so that the result is linear on each case
         q = ENGINE.concretize(z3.simplify(z3.ToInt(a / b)))
